@@ -80,6 +80,17 @@ def m_write_all(I, c, args, fr):
     data = explode(I, as_items(args[1]))
     return do_write(I, t, data)
 
+@model('Write::write')
+def m_write(I, c, args, fr):
+    """one write call: the transport may accept only a prefix (`max_write`)"""
+    t = transport(args[0])
+    data = explode(I, as_items(args[1]))
+    k = len(data)
+    if t.max_write is not None:
+        k = min(k, t.max_write)
+    r = do_write(I, t, data[:k])
+    return ok(k) if r.variant == 'Ok' else r
+
 def do_write(I, t, data):
     if t.fail_write_at is not None and len(t.writes) >= t.fail_write_at:
         t.writes.append(None)
